@@ -104,8 +104,16 @@ class LoopSpec(object):
         name = self.name if self.name.startswith('*') or ':' not in self.name else '*+' + self.name
         return '%s.%s.%s' % (name, phase, cid)
 
+    def _inv(self, I, fr, it):
+        # an invariant written for the loop as it was may not even be evaluable on a restructured loop (a local it names no longer exists):
+        # that is "the contract does not fit the code any more" - undecided, not a crash
+        try:
+            return list(self.inv(I, fr, it))
+        except (TypeError, KeyError, AttributeError, IndexError) as e:
+            raise Undecided('loop contract %s cannot be evaluated on this loop (%s: %s)' % (self.name, type(e).__name__, e))
+
     def _prove_inv(self, I, fr, it, phase):
-        for cid, b in self.inv(I, fr, it):
+        for cid, b in self._inv(I, fr, it):
             I.ctx.prove(b, self._oid(phase, cid))
         if self.check is not None:
             for cid, b in self.check(I, fr, it):
@@ -114,7 +122,7 @@ class LoopSpec(object):
     def _assume_inv(self, I, fr, it):
         if self.construct is not None:
             self.construct(I, fr, it)
-        for cid, b in self.inv(I, fr, it):
+        for cid, b in self._inv(I, fr, it):
             I.ctx.assume(b, quant=self.quant)
 
     def _havoc(self, I, s, fr):
